@@ -78,7 +78,19 @@ class ReadCSV(PartitionsFiltered, BlockwiseIO):
 
     @functools.cached_property
     def _meta(self):
-        return self._ddf._meta
+        meta = self._ddf._meta
+        if self._reads_other_columns:
+            meta = meta[self.columns]
+        return meta
+
+    @functools.cached_property
+    def _reads_other_columns(self):
+        # read_csv appends the path column and reads at least one data
+        # column, whether or not they were selected
+        return (
+            self.operand("columns") is not None
+            and list(self._ddf._meta.columns) != self.columns
+        )
 
     @functools.cached_property
     def columns(self):
@@ -101,6 +113,8 @@ class ReadCSV(PartitionsFiltered, BlockwiseIO):
     def _filtered_task(self, index: int):
         if self._series:
             return (operator.getitem, self._tasks[index], self.columns[0])
+        if self._reads_other_columns:
+            return (operator.getitem, self._tasks[index], self.columns)
         return self._tasks[index]
 
 
